@@ -150,14 +150,20 @@ func (w *c30World) pollCallback(name string) {
 	}
 }
 
+// awake: no poll can reach its callbacks any more, so a gated Wake stops waiting (and is refused).
+func (w *c30World) awake() bool {
+	st, _ := w.m.state.Peek().(State)
+	return st == StateAwake
+}
+
 // call runs one Sleep/Wake on the current thread and judges the result (clause refuse).
 func (w *c30World) call(op string) {
 	switch op { // gated forms: wait (blocked) until a poll is inside the callback, then it is a plain Wake
 	case "wake@poll":
-		sched.Block("wait-OnPoll", func() bool { return w.inOnPoll })
+		sched.Block("wait-OnPoll", func() bool { return w.inOnPoll || w.awake() })
 		op = "wake"
 	case "wake@pollend":
-		sched.Block("wait-OnPollEnd", func() bool { return w.inOnPollEnd })
+		sched.Block("wait-OnPollEnd", func() bool { return w.inOnPollEnd || w.awake() })
 		op = "wake"
 	}
 	tid := sched.ThreadID()
